@@ -1,22 +1,15 @@
 // C10 (a): conditional inclusion.  The REAL preprocess2 / skip_cond_incl / skip_cond_incl2 /
-// skip_line / push_cond_incl of preprocess.c run over a SYMBOLIC directive sequence of NITEMS
-// lines, built as real Token lists (no tokenizer).  Line alphabet:
-//   #if b | #ifdef N | #ifndef N | #elif b | #else | #endif | text_i      (b, N symbolic)
-// optionally with one trailing junk token on #ifdef/#ifndef/#else/#endif lines.
-// eval_const_expr is cut (--replace-calls) to return the bit embedded in the token (its
-// arithmetic belongs to C07).  Reference: C11 6.10.1 group selection, written over the
-// line array (not over tokens).
+// skip_line / push_cond_incl of preprocess.c run over real Token lists (built here, no tokenizer).
 //
-// Cost control (compositional, both halves use the REAL code against one shared contract):
-//   h_skip_*      real skip_cond_incl(+2) from any line inside a group  == spec_skip()
-//   h_select_*    real preprocess2 with skip_cond_incl replaced by spec_skip()
-//   h_mono_*      real preprocess2 + real skip_cond_incl*, smaller bound (cross-check)
-#ifndef NITEMS
-#define NITEMS 6
-#endif
-#ifndef MAXNEST
-#define MAXNEST 3
-#endif
+// Shape: a directive skeleton of D<=7 conditional directives (every well-formed sequence over
+//   O = group opener, L = #elif, S = #else, E = #endif, nesting <= 3: enumerated exhaustively in
+//   skeletons.inc, one harness function each) with a distinct text line t_i before, between and
+//   after all directives.
+// Symbolic per directive: opener flavour (#if b | #ifdef N | #ifndef N), the controlling bit b of
+//   #if/#elif, the name N in {X,Y}; symbolic: which of X,Y are defined.
+// h_junk_*: every #ifdef/#ifndef/#else/#endif line additionally carries a trailing token `J`.
+// eval_const_expr is cut (--replace-calls) to return the bit carried by the operand token (its
+// arithmetic belongs to C07).  Reference: C11 6.10.1 group selection over the line array.
 static int expect_no_diag;
 #define VERIF_ON_EXIT(code) VASSERT(!expect_no_diag, "no diagnostic on a well-formed directive sequence")
 #include "common.h"
@@ -24,63 +17,61 @@ static int expect_no_diag;
 #include "preprocess.c"
 #include "pp_env_impl.h"
 
-enum { I_IF, I_IFDEF, I_IFNDEF, I_ELIF, I_ELSE, I_ENDIF, I_TEXT, I_NKINDS };
+#define MAXD 7
+#define MAXNEST 3
+enum { F_IF, F_IFDEF, F_IFNDEF };
 struct IN_t {
-  struct { unsigned char kind, bit, name, junk; } it[NITEMS];
+  struct { unsigned char flavour, bit, name; } d[MAXD];
   unsigned char defined[2];
-  unsigned char start;
 } IN;
 struct IN_t nondet_IN(void);
 
 // ---------------------------------------------------------------- token construction
-// Every line occupies exactly 3 tokens of ONE array with fixed `next` links (keeps pointer
-// reasoning linear): directives shorter than 3 tokens are followed by a null directive `#`
-// (C11 6.10.7) or by the junk token; a text line is `t_i u u`.  Sequences shorter than NITEMS
-// lines are covered because text lines are neutral.
-// all spellings live in ONE char object (single-object pointers keep cbmc's dereferencing linear)
-enum { O_HASH = 0, O_IF = 2, O_IFDEF = 5, O_IFNDEF = 11, O_ELIF = 18, O_ELSE = 23, O_ENDIF = 28, O_0 = 34, O_1 = 36,
-       O_X = 38, O_Y = 40, O_J = 42, O_U = 44, O_TEXT = 46 };
-static char pool[O_TEXT + 3 * NITEMS + 1] = "#\0if\0ifdef\0ifndef\0elif\0else\0endif\0" "0\0" "1\0X\0Y\0J\0u\0";
-#define sp_J (pool + O_J)
-#define sp_X (pool + O_X)
-#define sp_Y (pool + O_Y)
-#define NTOK (3 * NITEMS)
-static Token toks[NTOK + 1];    // toks[NTOK] is EOF
-#define eof_tok toks[NTOK]
+static char sp_text[MAXD + 1][3];
+#define NTOK (4 * MAXD + MAXD + 1)
+static Token toks[NTOK + 1];
+static int ntok;
+static Token *text_tok[MAXD + 1];
+static char sp_J[] = "J";
 
-static void mk(Token *t, TokenKind k, int off, int len, bool bol) {
-  t->kind = k; t->loc = pool + off; t->len = len; t->at_bol = bol; t->has_space = !bol; t->next = t + 1;
+static Token *mk(TokenKind k, char *sp, int len, bool bol) {
+  Token *t = &toks[ntok++];
+  t->kind = k; t->loc = sp; t->len = len; t->at_bol = bol; t->has_space = !bol; t->next = t + 1;
   t->file = &verif_file; t->line_no = 1;
+  return t;
+}
+static void mk_text(int i) {
+  sp_text[i][0] = 't'; sp_text[i][1] = '0' + i; sp_text[i][2] = 0;
+  text_tok[i] = mk(TK_IDENT, sp_text[i], 2, true);
 }
 
-static Token *build(void) {
-  eof_tok.kind = TK_EOF; eof_tok.loc = pool + 1; eof_tok.len = 0; eof_tok.at_bol = true; eof_tok.file = &verif_file;
-  for (int i = 0; i < NITEMS; i++) {
-    int kind = IN.it[i].kind;
-    bool junk = IN.it[i].junk;
-    Token *t = &toks[3 * i];
-    pool[O_TEXT + 3 * i] = 't'; pool[O_TEXT + 3 * i + 1] = '0' + i; pool[O_TEXT + 3 * i + 2] = 0;
-    if (kind == I_TEXT) {
-      mk(t, TK_IDENT, O_TEXT + 3 * i, 2, true);
-      mk(t + 1, TK_IDENT, O_U, 1, false);
-      mk(t + 2, TK_IDENT, O_U, 1, false);
+static Token *build(const char *sk, int D, bool junk) {
+  ntok = 0;
+  for (int i = 0; i < MAXD; i++) {
+    if (i >= D) continue;
+    mk_text(i);
+    mk(TK_PUNCT, "#", 1, true);
+    char c = sk[i];
+    if (c == 'O' && IN.d[i].flavour == F_IF) {
+      mk(TK_IDENT, "if", 2, false);
+      mk(TK_PP_NUM, IN.d[i].bit ? "1" : "0", 1, false)->val = IN.d[i].bit;
+      if (junk) mk(TK_PUNCT, "#", 1, true);     // null directive: keeps token positions independent of the flavour
+    } else if (c == 'O') {
+      if (IN.d[i].flavour == F_IFDEF) mk(TK_IDENT, "ifdef", 5, false);
+      else mk(TK_IDENT, "ifndef", 6, false);
+      mk(TK_IDENT, IN.d[i].name ? "Y" : "X", 1, false);
+      if (junk) mk(TK_IDENT, sp_J, 1, false);
+    } else if (c == 'L') {
+      mk(TK_IDENT, "elif", 4, false);
+      mk(TK_PP_NUM, IN.d[i].bit ? "1" : "0", 1, false)->val = IN.d[i].bit;
     } else {
-      mk(t, TK_PUNCT, O_HASH, 1, true);
-      if (kind == I_IF || kind == I_ELIF) {
-        mk(t + 1, TK_IDENT, kind == I_IF ? O_IF : O_ELIF, kind == I_IF ? 2 : 4, false);
-        mk(t + 2, TK_PP_NUM, IN.it[i].bit ? O_1 : O_0, 1, false);
-        t[2].val = IN.it[i].bit;
-      } else if (kind == I_IFDEF || kind == I_IFNDEF) {
-        // (a junk token after the operand would need a 4th slot: junk is only modelled on #else/#endif)
-        mk(t + 1, TK_IDENT, kind == I_IFDEF ? O_IFDEF : O_IFNDEF, kind == I_IFDEF ? 5 : 6, false);
-        mk(t + 2, TK_IDENT, IN.it[i].name ? O_Y : O_X, 1, false);
-      } else {
-        mk(t + 1, TK_IDENT, kind == I_ELSE ? O_ELSE : O_ENDIF, kind == I_ELSE ? 4 : 5, false);
-        if (junk) mk(t + 2, TK_IDENT, O_J, 1, false);
-        else mk(t + 2, TK_PUNCT, O_HASH, 1, true);      // null directive line
-      }
+      mk(TK_IDENT, c == 'S' ? "else" : "endif", c == 'S' ? 4 : 5, false);
+      if (junk) mk(TK_IDENT, sp_J, 1, false);
     }
   }
+  mk_text(D);
+  Token *e = mk(TK_EOF, "", 0, true);
+  e->next = NULL;
   return &toks[0];
 }
 
@@ -93,17 +84,17 @@ long stub_eval_const_expr(Token **rest, Token *tok) {
   *rest = t;
   return v;
 }
-
-// Branches of preprocess2 that the line alphabet cannot reach are cut by stubs that ASSERT
-// unreachability (so the cut is checked, not assumed); they would otherwise drag the recursive
+// Branches of preprocess2 that this alphabet cannot reach are cut by stubs that ASSERT
+// unreachability (the cut is checked, not assumed); they would otherwise drag the recursive
 // macro/#include machinery (C09's subject) into every query.
 #ifdef NATIVE
 #define UNREACH(msg) do { VASSERT(0, msg); } while (0)
 #else
 #define UNREACH(msg) do { VASSERT(0, msg); __CPROVER_assume(0); } while (0)
 #endif
+static Macro dummy_macro = {.name = "X", .is_objlike = true};
 bool stub_expand_macro(Token **rest, Token *tok) {
-  if (tok->kind == TK_IDENT && (tok->loc == sp_X || tok->loc == sp_Y))
+  if (tok->kind == TK_IDENT && tok->len == 1 && (tok->loc[0] == 'X' || tok->loc[0] == 'Y'))
     UNREACH("macro names occur only as #ifdef/#ifndef operands in this alphabet");
   return false;
 }
@@ -112,141 +103,68 @@ void stub_read_macro_definition(Token **rest, Token *tok) { UNREACH("no #define 
 void stub_read_line_marker(Token **rest, Token *tok) { UNREACH("no #line in this alphabet"); }
 
 // ---------------------------------------------------------------- reference (C11 6.10.1)
-static bool cond_of(int i) {
-  int k = IN.it[i].kind;
-  if (k == I_IF || k == I_ELIF) return IN.it[i].bit;
-  bool d = IN.defined[IN.it[i].name];
-  return k == I_IFDEF ? d : !d;
+static bool cond_of(const char *sk, int i) {
+  if (sk[i] == 'L' || IN.d[i].flavour == F_IF) return IN.d[i].bit;
+  bool d = IN.defined[IN.d[i].name];
+  return IN.d[i].flavour == F_IFDEF ? d : !d;
 }
-static int ref_emit[NITEMS], ref_n;
-static int depth_before[NITEMS + 1];   // nesting depth before line i
-// returns well-formedness; fills ref_emit with the indices of the text lines that are selected
-static bool reference(void) {
-  bool par[MAXNEST], taken[MAXNEST], cur[MAXNEST], els[MAXNEST];
+static bool ref_sel[MAXD + 1];    // is text line i selected?
+static void reference(const char *sk, int D) {
+  bool par[MAXNEST + 1], taken[MAXNEST + 1], cur[MAXNEST + 1];
   int d = 0;
-  ref_n = 0;
-  for (int i = 0; i < NITEMS; i++) {
-    depth_before[i] = d;
-    int k = IN.it[i].kind;
-    bool act = d == 0 || (par[d - 1] && cur[d - 1]);
-    if (k == I_IF || k == I_IFDEF || k == I_IFNDEF) {
-      if (d == MAXNEST) return false;
-      bool c = cond_of(i);
-      par[d] = act; taken[d] = c; cur[d] = c; els[d] = false;
+  for (int i = 0; i <= MAXD; i++) {
+    if (i > D) continue;
+    ref_sel[i] = d == 0 || (par[d - 1] && cur[d - 1]);
+    if (i == D) break;
+    char c = sk[i];
+    if (c == 'O') {
+      bool v = cond_of(sk, i);
+      par[d] = ref_sel[i]; taken[d] = v; cur[d] = v;
       d++;
-    } else if (k == I_ELIF) {
-      if (d == 0 || els[d - 1]) return false;
-      cur[d - 1] = !taken[d - 1] && cond_of(i);
+    } else if (c == 'L') {
+      cur[d - 1] = !taken[d - 1] && cond_of(sk, i);
       if (cur[d - 1]) taken[d - 1] = true;
-    } else if (k == I_ELSE) {
-      if (d == 0 || els[d - 1]) return false;
-      els[d - 1] = true;
+    } else if (c == 'S') {
       cur[d - 1] = !taken[d - 1];
       taken[d - 1] = true;
-    } else if (k == I_ENDIF) {
-      if (d == 0) return false;
+    } else
       d--;
-    } else {
-      if (act) ref_emit[ref_n++] = i;
-    }
   }
-  depth_before[NITEMS] = d;
-  return d == 0;
 }
 
-static void assume_shape(bool allow_junk) {
-  for (int i = 0; i < NITEMS; i++) {
-    __CPROVER_assume(IN.it[i].kind < I_NKINDS && IN.it[i].bit <= 1 && IN.it[i].name <= 1 && IN.it[i].junk <= 1);
-    int k = IN.it[i].kind;
-    if (!allow_junk || (k != I_ELSE && k != I_ENDIF)) __CPROVER_assume(IN.it[i].junk == 0);
-  }
+static void run(const char *sk, bool junk) {
+  int D = 0;
+  while (D < MAXD && sk[D]) D++;
+  HAVOC_IN();
+  for (int i = 0; i < MAXD; i++)
+    __CPROVER_assume(IN.d[i].flavour <= F_IFNDEF && IN.d[i].bit <= 1 && IN.d[i].name <= 1);
   __CPROVER_assume(IN.defined[0] <= 1 && IN.defined[1] <= 1);
-}
-static Macro dummy_macro = {.name = "X", .is_objlike = true};
-static void define_names(void) {
+  reference(sk, D);
   if (IN.defined[0]) hashmap_put(&macros, "X", &dummy_macro);
   if (IN.defined[1]) hashmap_put(&macros, "Y", &dummy_macro);
-}
-
-// ---------------------------------------------------------------- contract of skip_cond_incl
-// From a token of line s (first token: scan from s; later token: rest of the line is skipped,
-// scan from s+1): first #elif/#else/#endif at nesting level 0, or EOF.
-static Token *spec_skip_from(int s) {
-  int d = 0;
-  for (int k = 0; k < NITEMS; k++) {
-    if (k < s) continue;
-    int kind = IN.it[k].kind;
-    if (kind == I_IF || kind == I_IFDEF || kind == I_IFNDEF) d++;
-    else if (kind == I_ENDIF) { if (d == 0) return &toks[3 * k]; d--; }
-    else if ((kind == I_ELIF || kind == I_ELSE) && d == 0) return &toks[3 * k];
-  }
-  return &eof_tok;
-}
-Token *spec_skip(Token *tok) {
-  int idx = tok - toks;
-  VASSERT(idx >= 0 && idx <= NTOK, "skip_cond_incl is called on a token of the input");
-  if (idx >= NTOK) return &eof_tok;
-  // a null-directive `#` in slot 2 is its own line: scanning from it == scanning from the next line
-  return spec_skip_from(idx % 3 == 0 ? idx / 3 : idx / 3 + 1);
-}
-
-static void check_output(Token *out) {
-  Token *t = out;
-  for (int k = 0; k < NITEMS + 1; k++) {
-    if (t->kind == TK_EOF) { VASSERT(k == ref_n, "all selected text lines are emitted"); return; }
-    if (t->loc == sp_J) {
-      VASSERT(0, "trailing tokens on a directive line are never emitted");
-      return;
-    }
-    VASSERT(k < ref_n, "no text of a skipped group (and no directive token) is emitted");
-    if (k >= ref_n) return;
-    int idx = t - toks;
-    VASSERT(idx == 3 * ref_emit[k], "emitted text lines are exactly the C11 6.10.1 selection, in order");
-    if (idx != 3 * ref_emit[k]) return;
-    VASSERT(t->next == t + 1 && t->next->next == t + 2, "a selected text line is emitted whole");
-    t = (t + 2)->next;
-  }
-  VASSERT(0, "output longer than the input");
-}
-
-static void run_select(bool allow_junk) {
-  HAVOC_IN();
-  assume_shape(allow_junk);
-  bool wf = reference();
-  __CPROVER_assume(wf);
-  define_names();
-  Token *in = build();
+  Token *in = build(sk, D, junk);
   expect_no_diag = 1;
   Token *out = NULL;
   TRY(out = preprocess2(in));
   if (verif_diag) return;
   VASSERT(cond_incl == NULL, "conditional stack empty after a balanced sequence");
-  check_output(out);
+  // emitted tokens == selected text lines, in order
+  Token *t = out;
+  for (int i = 0; i <= MAXD; i++) {
+    if (i > D) continue;
+    if (t->kind != TK_EOF && t->loc == sp_J) break;
+    if (ref_sel[i]) {
+      VASSERT(t == text_tok[i], "every selected text line is emitted, in order, and nothing else");
+      if (t != text_tok[i]) return;
+      t = t->next;
+    }
+  }
+  if (t->kind != TK_EOF && t->loc == sp_J)
+    VASSERT(0, "trailing tokens on a directive line are never emitted");
+  else
+    VASSERT(t->kind == TK_EOF, "no text of a skipped group and no directive token is emitted");
   VCOVER();
 }
-// real preprocess2; skip_cond_incl -> spec_skip and eval_const_expr -> stub (via --replace-calls)
-void h_select(void) { run_select(false); }
-void h_select_junk(void) { run_select(true); }
-// monolithic: only eval_const_expr is cut
-void h_mono(void) { run_select(false); }
-void h_mono_junk(void) { run_select(true); }
 
-// real skip_cond_incl(+2) from any token position that preprocess2 can hand it (first token of
-// a line, or the junk token where the pinned skip_line leaves the cursor), inside a group
-void h_skip(void) {
-  HAVOC_IN();
-  assume_shape(true);
-  bool wf = reference();
-  __CPROVER_assume(wf);
-  build();
-  int s = IN.start & 7;
-  bool at_junk = IN.start >> 7;
-  __CPROVER_assume(s < NITEMS);
-  if (at_junk) __CPROVER_assume(IN.it[s].junk);
-  int from = at_junk ? s + 1 : s;
-  __CPROVER_assume(depth_before[from] >= 1);
-  expect_no_diag = 1;
-  Token *got = skip_cond_incl(&toks[3 * s + (at_junk ? 2 : 0)]);
-  VASSERT(got == spec_skip_from(from), "skip_cond_incl stops at the matching #elif/#else/#endif of the current group");
-  VCOVER();
-}
+#define SK(s) void h_sel_##s(void) { run(#s, false); } void h_junk_##s(void) { run(#s, true); }
+#include "skeletons.inc"
